@@ -13,3 +13,15 @@ CHECKS["C17"] = dict(
                  "in Agent.Start only dispatches to them)", "notify callback never reports a fatal error"],
     stages=[dict(pkg="./pkg/agent", run="TestVerifC17", shards=1)],
 )
+
+CHECKS["C20"] = dict(
+    level="exploration", engine="inputx",
+    technique="exhaustive enumeration of the whole input range (every mCPU value, every cgroup shares value, a dense capacity interval plus structured families) on the real functions",
+    rule="every CPU request/limit 0..256000 mCPU, every cpu.shares value 2..262144, and every memory capacity of the family "
+         "(dense interval above 1 MiB + powers of two/ten with deltas + quadratic sweep to 16 TiB + real MemTotal values) x every "
+         "Burstable oom_score_adj 3..999; non-trivial = distinct inputs whose encoding is not clamped (cpu) / distinct capacities",
+    bound=dict(quick="cpu: full range; capacities: 2^18 dense + ~61k structured", thorough="cpu: full range; capacities: 2^22 dense + ~61k structured"),
+    assumptions=["'all node memory capacities' is infinite: a dense interval and structured families are enumerated, not every int64"],
+    stages=[dict(pkg="./pkg/kubernetes", run="TestVerifC20", shards=16),
+            dict(pkg="./pkg/resmgr/cache", run="TestVerifC20Cache", shards=4)],
+)
